@@ -1,6 +1,6 @@
 """C04 — configuration of the check (deductive tier under construction)."""
 PROPERTY = "C04"
-LEVEL = "other"
+LEVEL = "exploration"
 CONTRACT_MODULES = ["contracts.specfuns"]
 FUNCTIONS = []
 LEMMAS = []
